@@ -236,4 +236,21 @@ def update (P : Params) (t : Table) (hash v : Nat) (comb : Nat → Nat → Nat) 
       pure t
     else insert P t r.1 hash v
 
+/-- `compact(ordered).serialize(…)`: the temporary compact sketch holds a `std::vector<Entry>` with
+    `reserve(num_entries)` (one block of exactly that many entries, none when 0), copies of the entries in slot
+    order, reads them, and dies. -/
+def serializeCompact (t : Table) : M Unit := do
+  if t.num = 0 then pure () else
+  let b ← deref t.entries
+  let vb ← alloc .entry t.num
+  let _ ← foldUp (fun i (j : Nat) => do
+      let k ← readWord b i
+      if k ≠ 0 then
+        copyConstructEntry b i vb j
+        pure (j + 1)
+      else pure j) (2 ^ t.lgCur) 0 0
+  loopUp (fun i => do let _ ← read vb i; pure ()) t.num 0
+  loopUp (fun i => destroy vb i) t.num 0
+  dealloc vb t.num
+
 end DS.Life.Theta
